@@ -11,6 +11,7 @@ from .. import opmodel as om
 from .. import ctx as C
 from . import common
 from . import lexfacts as LF
+from .. import lexmodel as LM
 
 PARSER = 'smartquery.sq_parser.SqParser'
 
@@ -112,6 +113,23 @@ def check(chk: Check) -> None:
                                 ' (`;` is not a line)' if want == 0 else ' (a line break inside brackets is still a line)'))
     if n_nl == 0:
         chk.bad(R1, 'line-break rule', lexrel, 'no lexer rule can match a line break')
+    # PLY stamps tok.lineno with the line on which the match *starts*, before the rule function runs: a returned token whose
+    # match begins with line breaks and goes on with visible text stands on a later line than the one recorded on it
+    for name in lm.order:
+        rm = lm.rules[name]
+        if not rm.newline or rm.returns_token == 'never' or not any(LM.first_chars_can(rm.parsed, c) for c in '\r\n'):
+            continue
+        texts = rm.texts if rm.texts is not None else (LM.samples(rm.parsed, unroll=2, cap=200, alphabet='x|\n ') or set())
+        late = sorted((w for w in texts if w[:1] in ('\r', '\n') and w.strip('\r\n \t;')), key=lambda x: (len(x), x))
+        restamped = rm.rule.func is not None and any(
+            isinstance(n, ast.Attribute) and n.attr == 'lineno' and isinstance(n.ctx, ast.Store) and isinstance(n.value, ast.Name)
+            and n.value.id == rm.rule.func.args.args[0].arg for n in ast.walk(rm.rule.func))
+        if late or rm.texts is None:
+            chk.require(not late or restamped, R2, 't_%s: the token stands on the line recorded on it' % name, '%s:%d' % (lexrel, rm.rule.line),
+                        'no match starts with a line break and goes on with visible text' if not late else
+                        ('the rule sets t.lineno itself' if restamped else
+                         'a match such as %r starts with line break(s) and ends in visible text: PLY recorded the line of the first '
+                         'character on the token, the text the message names stands %d line(s) further down' % (late[0], late[0].count('\n'))))
     # resets to 1 in both entry points
     reset_nodes: list = []
     for mn in ('parse', 'list_names'):
